@@ -346,6 +346,13 @@ def main(pid, run, native=None):
         signal.alarm(budget)
         run(ctx)
         signal.alarm(0)
+        if ctx.inconclusive and native is not None and not (os.environ.get('VERIF_NATIVE_TOO') or a.tier == 'thorough'):
+            # a part of the check could not be gone through (ctx.section): as after any inconclusive symbolic run, try to exhibit a
+            # violation on the real build
+            try:
+                native(ctx)
+            except Exception as e2:
+                print(f'INCONCLUSIVE: native supplement failed: {type(e2).__name__}: {e2}')
         if native is not None and (os.environ.get('VERIF_NATIVE_TOO') or a.tier == 'thorough'):
             native(ctx)          # thorough tier: the native supplement always runs as well
         return ctx.finish()
